@@ -127,7 +127,7 @@ def units():
         raises={},
         use=["val_be_concat(rep(pad, 4 - len(old.v) % 4), old.v)", "val_be_ff(4 - len(old.v) % 4)", "val_be_00(4 - len(old.v) % 4)",
              "pow256_add(4 - len(old.v) % 4, len(old.v))"],
-        loops={1: dict(invariant=["i % 4 == 0 and 0 <= i and i <= len(v) + 3",
+        loops={1: dict(header='for i in range(0, len(v), 4)', invariant=["i % 4 == 0 and 0 <= i and i <= len(v) + 3",
                                   "r == (val_be(v[:i]) if (f == '>I' or i == 0) else val_be(v[:i]) - pow256(i))"],
                        use_head=["rep_first(pad, 4 - len(old.v) % 4)"],
                        use=["val_be_concat(v[:i], v[i:i+4])", "val_be_word(v[i:i+4])", "pow256_4(len(v[i:i+4]))",
